@@ -492,3 +492,7 @@ def _firstdiff(a, b):
 #   c40-inverted-accepted      `if last < first: raise` removed                 -> unparseable-range-not-ignored
 #   c40-other-unit-accepted    units check removed                              -> unparseable-range-not-ignored
 #   c40-read-offset            filenode.read(req, first+1, size)                -> partial-body-differs
+#   c40-mdmf-last-segment-off-by-one / seeded C40-3   Retrieve reads one segment too many when a range ends on the last byte of a
+#                              non-final MDMF segment: headers right, body too long -> content-length-differs-from-body (judged on the
+#                              bytes the resource wrote to the request, a client stops reading at Content-Length).  Needs multi-segment
+#                              MDMF files: publish.DEFAULT_MUTABLE_MAX_SEGMENT_SIZE is lowered for the run, plus one real >128 KiB file.
